@@ -366,6 +366,56 @@ func C13(c *ev.Ctx) {
 		}
 	}
 
+	// (2c) different names that look like each other's staging files: f, f.tmp, f.tmp.tmp, .f.tmp, f~ in one directory
+	// (and the same names in the root). Every file must hold exactly its own data after all calls returned.
+	{
+		fam := []string{"f", "f.tmp", "f.tmp.tmp", ".f.tmp", "f~", "tmp", "f.tmp0"}
+		for _, impl := range []string{"dir", "mem"} {
+			for round := 0; round < 3; round++ {
+				var fsys filesys.Filesys
+				if impl == "dir" {
+					_ = os.RemoveAll(root)
+					_ = os.MkdirAll(filepath.Join(root, "d"), 0755)
+					fsys = filesys.NewDirFs(root)
+				} else {
+					fsys = filesys.NewMemFs()
+					fsys.Mkdir("d")
+				}
+				order := append([]string{}, fam...)
+				rr13 := rng(c, uint64(1300+round))
+				rr13.Shuffle(len(order), func(i, j int) { order[i], order[j] = order[j], order[i] })
+				want := map[string][]byte{}
+				bad := ""
+				for k, nm := range order {
+					data := acData(byte('A'+k), 10+k*700)
+					if catchPanic(func() { fsys.AtomicCreate("d", nm, data) }) {
+						bad = fmt.Sprintf("AtomicCreate(d, %q) panicked", nm)
+						break
+					}
+					want[nm] = data
+					evaluations++
+					for on, od := range want {
+						var got []byte
+						if catchPanic(func() {
+							f := fsys.Open("d", on)
+							got = fsys.ReadAt(f, 0, uint64(len(od)+100))
+							fsys.Close(f)
+						}) || !bytes.Equal(got, od) {
+							bad = fmt.Sprintf("after AtomicCreate(d, %q): d/%s no longer holds exactly the data of its own AtomicCreate (%d bytes read, %d expected)", nm, on, len(got), len(od))
+						}
+					}
+					if bad != "" {
+						break
+					}
+				}
+				if bad != "" {
+					c.Violation("atomiccreate.other-name-disturbed", fmt.Sprintf("%s, creation order %v: %s (calls for different names must not disturb each other)", impl, order, bad), nil)
+					break
+				}
+			}
+		}
+	}
+
 	// (3) concurrent creators and readers on DirFs, interleaved at the hooks
 	acConcurrency(c)
 
